@@ -282,8 +282,8 @@ pub fn sched(out: &mut Out, rng: &mut Rng, count: usize, exhaustive_below: usize
             if pauses && !bounds.is_empty() && (base.buffer.is_empty() || k % 3 == 0) {
                 // temporary end-of-file exactly at (a subset of) tag boundaries: split chunks there and answer Ok(0) once
                 let mut out_s = Vec::new(); let mut pos = 0usize;
-                for st in sc { if let Step::N(nb) = st { let mut left = nb; while left > 0 { let nextb = bounds.iter().copied().find(|b| *b > pos && *b < pos + left); match nextb { Some(b) => { out_s.push(Step::N(b - pos)); left -= b - pos; pos = b; if rng.chance(1, 2) { out_s.push(Step::Zero); } } None => { out_s.push(Step::N(left)); pos += left; left = 0; } } }
-                    if bounds.contains(&pos) && rng.chance(1, 2) { out_s.push(Step::Zero); } } }
+                for st in sc { if let Step::N(nb) = st { let mut left = nb; while left > 0 { let nextb = bounds.iter().copied().find(|b| *b > pos && *b < pos + left); match nextb { Some(b) => { out_s.push(Step::N(b - pos)); left -= b - pos; pos = b; if rng.chance(1, 2) { out_s.push(if rng.chance(1, 2) { Step::Zero } else { Step::Pause }); } } None => { out_s.push(Step::N(left)); pos += left; left = 0; } } }
+                    if bounds.contains(&pos) && rng.chance(1, 2) { out_s.push(if rng.chance(1, 2) { Step::Zero } else { Step::Pause }); } } }
                 sc = out_s;
             }
             run_reader::<DynTag>(out, &format!("sched:{k}"), &bytes, &c, &sc, &Calls::UntilEnd { extra: 1, max_calls: 600 });
@@ -500,7 +500,7 @@ pub fn witness_buffered_eof(out: &mut Out, n: &mut usize) {
     // C04: pause (temporary Ok(0)) at that boundary
     begin(out, n, &s, "sched", json!({"witness":"DEV_BUFFERED_EOF_NOCLOSE"}));
     run_reader::<DynTag>(out, "slice", &bytes, &c, &[], &until_end());
-    run_reader::<DynTag>(out, "sched:pause", &bytes, &c, &[Step::N(q_off), Step::Zero, Step::Zero, Step::Zero, Step::N(1000)], &Calls::UntilEnd { extra: 1, max_calls: 100 });
+    run_reader::<DynTag>(out, "sched:pause", &bytes, &c, &[Step::N(q_off), Step::Pause, Step::Pause, Step::N(1000)], &Calls::UntilEnd { extra: 1, max_calls: 100 });
     out.ev(json!({"ev":"end"}));
     // C08: input ends at that boundary
     let mut flat = c.clone(); flat.buffer = vec![];
